@@ -1,12 +1,13 @@
 CONSTANTS
   HashMode = "real"
   Bug = "none"
-  Sweeps = {"near", "deepq", "hier", "xtwin", "xdeep"}
+  Sweeps = {"near", "deepq", "hier", "xtwin", "xdeep", "self"}
   PairDepth = 2
   NearDepth = 2
   DeepDepth = 2
   HierDepth = 2
   XDepth = 1
+  SelfDepth = 2
   Wide = FALSE
   EmitCases = TRUE
 INIT Init
